@@ -102,8 +102,11 @@ def run(tier):
             plat = np.array([rng.choice([-10.0, -2.5, 5.0, 12.5, 20.0]) for _ in range(npts)])
             pt = np.array([rng.choice([0.0, 0.25, 1.5, 2.0]) for _ in range(npts)])
             ptime = np.array([base + np.timedelta64(int(3600 * v), "s") for v in pt]).astype("datetime64[ns]")
-            points = {"time": ptime, "latitude": plat, "longitude": np.array(c["x"], dtype="float64")}
-            ctx = {"lon_grid": c["xp"], "nan": c["nan"]}
+            vals_ = {"time": ptime, "latitude": plat, "longitude": np.array(c["x"], dtype="float64")}
+            korder = ["time", "latitude", "longitude"]
+            rng.shuffle(korder)                       # the order of the keys of the points mapping carries no meaning
+            points = {k_: vals_[k_] for k_ in korder}
+            ctx = {"lon_grid": c["xp"], "nan": c["nan"], "key_order": korder}
             try:
                 out = interpolate_at_points(ds, points, independent_variable="time", periodic_coordinates={"longitude": 360})["u"].values
             except Exception as e:
